@@ -165,6 +165,9 @@ def blue_actions(v) -> List[Dict]:
     add("node-application-execute", node_name="client_2", application_name="ransomware-script")
     add("node-application-execute", node_name="client_1", application_name="database-client")
     add("node-application-execute", node_name="ghost", application_name="web-browser")
+    # an application that only exists after the install action: its own requests
+    for verb in ("execute", "scan", "close", "fix"):
+        add("node-application-" + verb, node_name="client_2", application_name="database-client")
     add("node-application-install", node_name="client_2", application_name="database-client")
     add("node-application-install", node_name="client_2", application_name="c2-beacon")
     add("node-application-remove", node_name="client_2", application_name="database-client")
@@ -172,6 +175,12 @@ def blue_actions(v) -> List[Dict]:
     add("node-application-install", node_name="ghost", application_name="dos-bot")
     for verb in ("scan", "checkhash", "repair", "restore", "corrupt", "delete", "access"):
         add("node-file-" + verb, node_name="backup_server", folder_name="docs", file_name="a.txt")
+    # a second file of the same folder and a second folder of the same host (verdicts must not be shared between them)
+    add("node-file-scan", node_name="backup_server", folder_name="docs", file_name="b.txt")
+    add("node-file-delete", node_name="backup_server", folder_name="docs", file_name="b.txt")
+    add("node-file-corrupt", node_name="backup_server", folder_name="docs", file_name="b.txt")
+    add("node-folder-scan", node_name="backup_server", folder_name="newdir")
+    add("node-folder-repair", node_name="backup_server", folder_name="newdir")
     add("node-file-delete", node_name="database_server", folder_name="database", file_name="database.db")
     add("node-file-scan", node_name="database_server", folder_name="database", file_name="database.db")
     add("node-file-repair", node_name="database_server", folder_name="database", file_name="database.db")
